@@ -400,7 +400,7 @@ IMPL_ONLY = ["name =~ '^C'", "name =~ 'C$'", "name =~ '\\\\d'", "name =~ 'C{1,2}
 def reduced_exhaustive():
     """every string of nesting depth <= 2 over a reduced vocabulary, written without and with parentheses"""
     d0 = ["protein", "water", "name CA", "index 1 to 4", "CA"]
-    ops = ["and", "&&", "or", "<", "eq", "lt", "=~", "!="]
+    ops = ["and", "or", "<", "lt", "=~", "eq"]
     d1 = ["%s%s" % (u, x) for u in ("not ", "!") for x in d0] + ["%s %s %s" % (x, o, y) for o in ops for x in d0 for y in d0]
     out = list(d0) + list(d1)
     for u in ("not ", "!"):
@@ -470,7 +470,9 @@ def coq_codes(ctx, atoms_by_topo, items, shard=300, fn="codes"):
         body.append(";\n".join("(%d%%nat, (%d%%nat, %s, %s))" % (ci, ti, cstr(s), coq_outcome(o)) for ci, ti, s, o in sh))
         body.append("].")
         body.append('Definition tag := "CODES"%string.')
-        body.append("Eval vm_compute in (tag, List.length cases, %s gen_cfg topos cases)." % fn)
+        body.append("Set Printing Depth 1000000.")
+        body.append("Definition result := Eval vm_compute in (%s gen_cfg topos cases)." % fn)
+        body.append("Eval vm_compute in (tag, List.length result, result).")
         return ctx.coqc_text("c12_%s_%d_%d" % (fn, id(items) % 100000, si), "\n".join(body) + "\n", timeout=1200)
 
     res, errors = {}, []
@@ -483,7 +485,11 @@ def coq_codes(ctx, atoms_by_topo, items, shard=300, fn="codes"):
             if not m:
                 errors.append("unparsed coqc output: " + out[-2000:])
                 continue
-            for a, b in re.findall(r"\((\d+)(?:%nat)?,\s*(\d+)(?:%nat)?\)", m.group(2)):
+            pairs = re.findall(r"\(\s*(\d+)(?:%nat)?\s*,\s*(\d+)(?:%nat)?\s*\)", m.group(2))
+            if len(pairs) != int(m.group(1)):     # the printed list must be complete (Coq elides deep terms)
+                errors.append("coqc printed %d of %s codes" % (len(pairs), m.group(1)))
+                continue
+            for a, b in pairs:
                 res[int(a)] = int(b)
     return res, errors
 
@@ -496,16 +502,17 @@ def table_status(ctx):
     tables, decided by Coq"""
     if getattr(ctx, "_c12_status", None) is None:
         rc, out = ctx.coq_eval(["MD.Select.Syntax", "MD.Select.Model", "MD.Select.Run", "MD.Gen.SelectTables"],
-                               "(tables_as_found gen_cfg, documented_meaning gen_cfg, order_conventional gen_cfg)")
-        m = re.search(r"=\s*\((true|false),\s*(true|false),\s*(true|false)\)", out)
+                               "(tables_as_found gen_cfg, documented_meaning gen_cfg, order_conventional gen_cfg, "
+                               "levels_as_found gen_cfg)")
+        m = re.search(r"=\s*\((true|false),\s*(true|false),\s*(true|false),\s*(true|false)\)", out)
         if rc != 0 or not m:
             ctx.break_("correspondence:coqc-evaluation(table status)", out[-1500:])
-            ctx._c12_status = (True, True, False)
+            ctx._c12_status = (True, True, False, True)
         else:
             ctx._c12_status = tuple(x == "true" for x in m.groups())
         ctx.notes.setdefault("coverage_extra", {})["source_tables"] = {
             "literally_as_found_reference": ctx._c12_status[0], "documented_meanings_present": ctx._c12_status[1],
-            "operator_order_conventional": ctx._c12_status[2]}
+            "operator_order_conventional": ctx._c12_status[2], "levels_as_found_reference": ctx._c12_status[3]}
     return ctx._c12_status
 
 
@@ -596,7 +603,7 @@ def run_cases(ctx, topo_specs, cases, sentinel=True):
             json.dump([{"s": cases[i]["s"], "impl": outs[i], "code": codes.get(i, 0), "stream": cases[i]["stream"],
                         "topo": cases[i]["topo"]} for i in in_model if codes.get(i, 0)], fh, indent=0)
     budget = {}
-    as_found, _doc_ok, _conv = table_status(ctx)
+    as_found, _doc_ok, _conv, lv_as_found = table_status(ctx)
     if not as_found:
         # the source tables differ from the as-found reference: compare with the documented tables as well, on the
         # strings that use documented spellings only
@@ -640,7 +647,7 @@ def run_cases(ctx, topo_specs, cases, sentinel=True):
             if code & 4:
                 fail("prec", "operator precedence is the sorted order of the operator spellings, not unary > comparison/=~ > "
                      "and > or: the expression is read differently from its conventional meaning", i,
-                     "Coq: select_str (conventional gen_cfg)", {"kind": "precedence", "explained_by": "levels_as_found"})
+                     "Coq: select_str (conventional gen_cfg)", {"kind": "precedence", "explained_by": "levels_as_found" if lv_as_found else "levels_changed"})
             elif variant == "as_found" and code & 2:
                 fail("single", "a single numeric literal equal to 0 or 1 is accepted as a selection", i, "rejected",
                      {"kind": "single_literal", "explained_by": "in_safe_set"})
@@ -689,13 +696,13 @@ def build_cases(ctx):
             add(join(a + [o] + b, rng, 0.0), "spelling")
     # pyparsing needs up to seconds for parentheses nested 5-6 deep (19 levels per parenthesis): the deep cases are
     # mostly generated without parentheses or with the conventional ones, and are few
-    n = 700 if quick else 6000
+    n = 700 if quick else 4000
     for i in range(n):
         depth = rng.choice([0, 1, 1, 2, 2, 3, 4] if quick else [0, 1, 1, 2, 2, 2, 3, 3, 4])
         tree = gen_tree(rng, depth)
         style = rng.choice(["conv", "conv", "full", "none", "rand"])
         add(join(toks(tree, style, rng), rng, rng.choice([0.0, 0.0, 0.5, 1.0])), "random/" + style)
-    for i in range(20 if quick else 300):
+    for i in range(20 if quick else 200):
         tree = gen_tree(rng, rng.choice([5, 6]))
         style = rng.choice(["none", "none", "none", "conv"]) if i % 10 else "full"
         add(join(toks(tree, style, rng), rng, rng.choice([0.0, 0.5])), "random-deep/" + style)
